@@ -108,7 +108,7 @@ struct Input {
 
 pub fn run(p: &Params) -> Report {
     let mut rep = Report::new("C04");
-    rep.rule = "cases = (state, spending transaction) in which everything except authorisation is valid by construction (coins exist, balanced, fee paid, unlocked, well-formed): 1-8 inputs drawn from covenant families ed25519 legacy/new (right/wrong key, right/wrong slot, signature over another transaction, fields tampered after signing, truncated), hash-lock on data, time-lock and deadline on the previous header's height, spender-index-, value-, additional-data-, parent-height-, parent-index-, output-count-bound, self-hash and random programs; inputs may share one covenant hash while differing in environment, down to twin coins that differ only in coin id and input position; covenants may be missing, corrupted after signing, or the coin may be locked to the hash of bytes that are not a program at all (a literal running past the end of a standard covenant or standing alone, an unassigned opcode, a missing operand). The spending transaction is a plain payment, a faucet-kind transaction with inputs (off mainnet) or a pool-kind transaction whose data names no pool; input values include 0. One spend in four is applied as a member of a two-transaction batch whose other (valid) member lists every covenant the spend's inputs need, half of those with one covenant dropped from the spend itself. Oracle: the reference interpreter on the reference environment heap for every input: accepted => every input authorised; for the two standard signature covenants also all authorised => accepted. Non-trivial = >= 2 inputs, or an environment-dependent covenant, or a tampered transaction; distinct by transaction hash".into();
+    rep.rule = "cases = (state, spending transaction) in which everything except authorisation is valid by construction (coins exist, balanced, fee paid, unlocked, well-formed): 1-8 inputs drawn from covenant families ed25519 legacy/new (right/wrong key, right/wrong slot, signature over another transaction, fields tampered after signing, truncated), hash-lock on data, time-lock and deadline on the previous header's height, spender-index-, value-, additional-data-, parent-height-, parent-index-, output-count-bound, self-hash and random programs; inputs may share one covenant hash while differing in environment, down to twin coins that differ only in coin id and input position; covenants may be missing, corrupted after signing, or the coin may be locked to the hash of bytes that are not a program at all (a literal running past the end of a standard covenant or standing alone, an unassigned opcode, a missing operand). The spending transaction is a plain payment, a faucet-kind transaction with inputs (off mainnet) or a pool-kind transaction whose data names no pool; input values include 0. One case in 150 has 250-309 inputs whose questionable ones sit around and beyond position 255. One spend in four is applied as a member of a two-transaction batch whose other (valid) member lists every covenant the spend's inputs need, half of those with one covenant dropped from the spend itself. Oracle: the reference interpreter on the reference environment heap for every input: accepted => every input authorised; for the two standard signature covenants also all authorised => accepted. Non-trivial = >= 2 inputs, or an environment-dependent covenant, or a tampered transaction; distinct by transaction hash".into();
     let total = p.n(100_000, 2_500_000);
     let mine = p.share(total);
     let mut rng = Rng::new(p.shard_seed() ^ 0xC04);
@@ -124,12 +124,25 @@ pub fn run(p: &Params) -> Report {
         let net = *r.pick(&[NetID::Custom02, NetID::Custom08, NetID::Testnet, NetID::Mainnet]);
         let height = 1_000_000 + r.below(50);
         let mult = *r.pick(&[0u128, 0, 0, 1000]);
-        let n_in = 1 + r.usize(if case % 5 == 0 { 8 } else { 3 });
+        // one case in 150 is long: 250-309 inputs, all but the last few anyone-can-spend or correctly signed, so that the
+        // inputs whose authorisation is in question sit around and beyond position 255 (the environment carries the
+        // position as one byte). Their coins are ERG, which the outputs do not mention: consumed, whatever they hold
+        let long = case % 150 == 7;
+        let long_tail = 1 + r.usize(6);
+        let n_in = if long { 250 + r.usize(60) } else { 1 + r.usize(if case % 5 == 0 { 8 } else { 3 }) };
         // choose families; with some probability reuse the previous input's covenant (shared hash, different environment)
         let mut inputs: Vec<Input> = vec![];
         for i in 0..n_in {
             let mut twin_of: Option<usize> = None;
-            let fam = if i > 0 && r.chance(2, 5) {
+            let fam = if long && i + long_tail < n_in {
+                // (the standard signature covenant looks for its signature in the slot numbered by the one-byte
+                // position, so beyond 255 only the anyone-can-spend covenant keeps the head authorised)
+                if i > 255 || r.chance(1, 2) {
+                    Fam::AlwaysTrue
+                } else {
+                    Fam::SigNew(r.usize(4))
+                }
+            } else if i > 0 && r.chance(2, 5) && !long {
                 let j = r.usize(i);
                 if r.chance(1, 2) {
                     // a twin: same covenant, value, denomination, additional data and creation height; only the
@@ -209,7 +222,13 @@ pub fn run(p: &Params) -> Report {
                 }
             };
             let cov = cov_of(&fam, &keys);
-            let denom = if i == 0 || r.chance(2, 3) { Denom::Mel } else { Denom::Sym };
+            let denom = if long && i > 0 {
+                Denom::Erg
+            } else if i == 0 || r.chance(2, 3) {
+                Denom::Mel
+            } else {
+                Denom::Sym
+            };
             let value = match r.below(6) {
                 0 => 500 + r.below(1000) as u128,
                 1 => 1500 + r.below(1000) as u128,
@@ -309,7 +328,14 @@ pub fn run(p: &Params) -> Report {
         }
         // sign
         let msg = tx.hash_nosigs();
-        let tamper = if with_neighbour && r.chance(1, 2) { 6 } else { r.below(12) };
+        let tamper = if long {
+            // leave the long head alone: no tampering, or one covenant dropped, or an output changed after signing
+            *r.pick(&[11u64, 11, 11, 6, 4])
+        } else if with_neighbour && r.chance(1, 2) {
+            6
+        } else {
+            r.below(12)
+        };
         let mut sigs: Vec<Vec<u8>> = vec![vec![]; n_slots];
         for (idx, i) in inputs.iter().enumerate() {
             match &i.fam {
@@ -475,6 +501,9 @@ pub fn run(p: &Params) -> Report {
             Err(_) => rep.count("apply_tx panicked (left to C09)"),
             Ok(Ok(())) => {
                 rep.count("accepted");
+                if tx.inputs.len() > 256 {
+                    rep.count("accepted with more than 256 inputs");
+                }
                 if all == Some(false) {
                     let (idx, fam) = first_bad.unwrap();
                     let earlier_same = tx.inputs[..idx].iter().any(|id| by_id[id].cdh.coin_data.covhash == by_id[&tx.inputs[idx]].cdh.coin_data.covhash);
@@ -490,6 +519,9 @@ pub fn run(p: &Params) -> Report {
                 rep.count("rejected");
                 if all == Some(false) {
                     rep.count(&format!("rejected with an unauthorised input: {}", first_bad.map(|x| x.1).unwrap_or("?")));
+                    if first_bad.map(|x| x.0 > 255).unwrap_or(false) {
+                        rep.count("rejected with the first unauthorised input beyond position 255");
+                    }
                 }
                 if all == Some(true) {
                     let only_std = inputs.iter().all(|i| matches!(i.fam, Fam::SigNew(_) | Fam::SigLegacy(_) | Fam::AlwaysTrue));
@@ -511,6 +543,8 @@ pub fn run(p: &Params) -> Report {
         rep.require("rejected", p.n(2000, 40000));
         rep.require("accepted with inputs sharing a covenant hash (all authorised)", p.n(100, 2000));
         rep.require("spends missing a covenant that a batch neighbour lists", p.n(500, 10000));
+        rep.require("accepted with more than 256 inputs", p.n(8, 200));
+        rep.require("rejected with the first unauthorised input beyond position 255", p.n(10, 200));
     }
     rep
 }
